@@ -15,6 +15,7 @@ import Model.Opt
 import Model.Core
 import Model.Wait
 import Model.Close
+import Model.PipeFacts
 import Model.Retry
 import Generated.Facts
 import Driver.Machines
@@ -210,6 +211,15 @@ def processLine (st : St) (line : String) : St × Option String :=
       if al.contains obs then (st, none) else
         ({ st with mismatches := st.mismatches + 1 },
           some s!"MISMATCH {st.lines} {lhs} expected={al} observed={obs}")
+    else if tag == "po.check" then
+      match args with
+      | [transport, _, fact] =>
+        let al := PipeFacts.allowed transport fact
+        let st := { st with counts := bump (bump st.counts tag) (tag ++ ":" ++ transport ++ ":" ++ fact ++ "=" ++ obs) }
+        if al.contains obs then (st, none) else
+          ({ st with mismatches := st.mismatches + 1 },
+            some s!"MISMATCH {st.lines} {lhs} expected={al} observed={obs}")
+      | _ => ({ st with mismatches := st.mismatches + 1 }, some s!"MISMATCH {st.lines} {lhs} expected=<bad arity> observed={obs}")
     else if tag == "er.follow" then
       match args with
       | [_, _, kind] =>
